@@ -21,30 +21,30 @@ import (
 
 // Profile tunes the random scenario generator for the property a check focuses on.
 type Profile struct {
-	Name        string
-	Steps       int     // hostile-phase steps
-	CanaryProb  float64 // probability that the EDS has a canary strategy
-	Hostile     float64 // weight of kubelet misbehaviour actions
-	Churn       float64 // weight of node churn
-	Edits       float64 // weight of template edits
-	Holds       float64 // weight of pause/freeze/canary annotation actions
-	Commands    float64 // weight of kubectl-eds commands
-	DupPods     float64 // weight of hand-made duplicate pods / user pod deletions
-	MultiEDS    bool    // two or three EDS populations (C12)
-	OldDS       float64 // probability of a migration start state
-	Converge    bool    // run the convergence phase at the end
-	Retention   bool    // run the retention phase after a rollback
-	Affinity    int     // -1 random, 0 nodeName mode, 1 affinity mode
-	MaxNodes    int
+	Name       string
+	Steps      int     // hostile-phase steps
+	CanaryProb float64 // probability that the EDS has a canary strategy
+	Hostile    float64 // weight of kubelet misbehaviour actions
+	Churn      float64 // weight of node churn
+	Edits      float64 // weight of template edits
+	Holds      float64 // weight of pause/freeze/canary annotation actions
+	Commands   float64 // weight of kubectl-eds commands
+	DupPods    float64 // weight of hand-made duplicate pods / user pod deletions
+	MultiEDS   bool    // two or three EDS populations (C12)
+	OldDS      float64 // probability of a migration start state
+	Converge   bool    // run the convergence phase at the end
+	Retention  bool    // run the retention phase after a rollback
+	Affinity   int     // -1 random, 0 nodeName mode, 1 affinity mode
+	MaxNodes   int
 	// PodFaults: probability that a pod create/delete issued by a controller is rejected (0 = none)
-	PodFaults   float64
+	PodFaults float64
 	// EDSFaults: probability that a write of the EDS controller to the ExtendedDaemonSet object
 	// (status update or spec update) is rejected
-	EDSFaults   float64
+	EDSFaults float64
 	// Burst: extra weight of back-to-back replica-set reconcile requests at +0 / +0.4s / freq-1s
-	Burst       float64
+	Burst float64
 	// Nested: N-mode yield probability per API call (0 = atomic reconciles, schedule S)
-	Nested      float64
+	Nested float64
 	// EventDriven: run the convergence phase in E mode (events, requeues and error retries only)
 	EventDriven bool
 	// CanarySteady: before the end, hold a running manual canary open and judge its steady state (C04)
@@ -531,7 +531,6 @@ func (e *Sim) actionFrom(w *World, r *rand.Rand, ns, name string, sh shape, edit
 		x -= a.w
 	}
 }
-
 
 // nestedAction: what another actor does while a reconcile of `outer` is suspended at an API call.
 func (e *Sim) nestedAction(w *World, r *rand.Rand, outer, ns, name string, sh shape, edits map[string]int, nextTpl map[string]int) {
